@@ -886,9 +886,7 @@ class DBusObjectHandler :
 
             def send_error(err):
                 e = err.value
-                # DBus strings carry neither NUL nor lone surrogates
-                errMsg = err.getErrorMessage().replace('\0', '').encode(
-                    'utf-8', 'replace').decode('utf-8')
+                errMsg = err.getErrorMessage()
                 name = None
 
                 if hasattr(e, 'dbusErrorName'):
@@ -902,6 +900,11 @@ class DBusObjectHandler :
                 except error.MarshallingError:
                     errMsg = ('!!(Invalid error name "%s")!! ' % name) + errMsg
                     name = 'org.txdbus.InvalidErrorName'
+
+                # DBus strings carry neither NUL nor lone surrogates (the
+                # rejected name is quoted in the text, so clean up last)
+                errMsg = errMsg.replace('\0', '').encode(
+                    'utf-8', 'replace').decode('utf-8')
 
                 r = message.ErrorMessage(name, msg.serial,
                                          body=[errMsg],
